@@ -110,6 +110,7 @@ def run():
     thorough = c.tier == "thorough"
     rng = random.Random(c.seed + 303)
     c.mc(termlib.SPEC, "MC_Term", "MC_Term_huge.cfg", workers=8, timeout=1200, xmx="8g")
+    c.mc("spec/conc", "MC_SixelDecoder", "MC_SixelDecoder_big.cfg", workers=4, timeout=1200)      # declared sizes never exceed MaxDim, however often re-declared
     table = csi_table(rng, 12 if thorough else 1, thorough)
     cases = []      # (emulation, bytes, model layer on?)
     for i, seq in enumerate(table):
@@ -153,6 +154,11 @@ def run():
         pl = rng.sample(pl, min(len(pl), 4000))
     c.extra["tlc_sixel_payloads_with_large_repeat"] = len(pl)
     for p in pl:
+        cases.append(("ansi", b"\x1bPq" + bytes(p) + b"\x1b\\", 0))
+    # ... and every payload of <= 3 tokens over raster headers with extreme sizes (a later header re-declares what an earlier set up)
+    plb = [json.loads(l)["payload"] for l in open(os.path.join(vlib.GEN, "sixel_payloads_big.ndjson")) if l.startswith("{")]
+    c.extra["tlc_sixel_payloads_big_raster"] = len(plb)
+    for p in plb:
         cases.append(("ansi", b"\x1bPq" + bytes(p) + b"\x1b\\", 0))
     n_shards = 12 if thorough else 8
     shards = []
